@@ -139,6 +139,13 @@ def build_sequences(rng, quick):
             if flavour == "f0":
                 r = f0_addition(rng, s.t, i)
                 s.adds.append((r.text(), "f0")); s.rules.append(r)
+            elif flavour == "undef":
+                # rules over ONE character the table does not know and two or three cells: linking such a rule allocates
+                # the character record after the rule; with some hundred of them a growth of the image falls between the
+                # two allocations (seeded change C15-X kept a pointer to the rule across it)
+                cl = [c for c in s.t.cells() if c] or [1, 3]
+                s.adds.append(("always %s %s" % (G.char_str(0x0900 + i), G.cells_str([rng.choice(cl) for _ in range(rng.randint(2, 3))])), "undef"))
+                s.rules.append(None)
             elif flavour == "fresh":
                 s.adds.append((fresh_addition(rng, s.t, i, fresh, pool), "fresh")); s.rules.append(None)
             else:
@@ -159,6 +166,7 @@ def build_sequences(rng, quick):
             if os.path.exists(os.path.join(corpus.TABLES, tn)):
                 mk("shipped", "general", rng.randint(40, 120), tn)
         mk("shipped", "fresh", 60, "en-us-g2.ctb"); mk("shipped", "fresh", 40, "en-gb-g1.utb")
+        mk("empty", "undef", 500); mk("gen", "undef", 400, "f0")
     else:
         mk("empty", "general", 0)
         for _ in range(40):
@@ -173,6 +181,8 @@ def build_sequences(rng, quick):
                    "en-us-comp6.ctb", "de-g0.utb", "unicode-braille.utb", "en-ueb-g1.ctb", "it-it-comp6.utb"]:
             if os.path.exists(os.path.join(corpus.TABLES, tn)):
                 mk("shipped", rng.choice(["general", "general", "fresh"]), rng.randint(40, 200), tn)
+        for _ in range(10):
+            mk("empty", "undef", rng.randint(300, 900)); mk("gen", "undef", rng.randint(300, 700), rng.choice(["f0", "mixed"]))
     return seqs
 
 
